@@ -21,6 +21,9 @@ import (
 
 type c13Case struct {
 	G egSpec `json:"g"`
+	// CC: compile for the C++ target with typed symbols (lists of typed references are expanded
+	// with list-building commands there); only grammar.Parser.Rules is read.
+	CC bool `json:"cc,omitempty"`
 }
 
 // egEnrich adds sets, lookahead markers, state markers, mid-rule commands, aliases, recursion and
@@ -147,7 +150,7 @@ func c13Gen(t *rapid.T) c13Case {
 		// a user nonterminal whose name looks like an extracted list nonterminal
 		g.NTs = append(g.NTs, &egNT{Name: "B_list", Alts: []*egAlt{{Parts: []*egPart{{K: "t", Sym: 1}}}}})
 	}
-	return c13Case{G: g}
+	return c13Case{G: g, CC: rapid.IntRange(0, 4).Draw(t, "cc") == 0}
 }
 
 // egDenote computes Lang<=L of every nonterminal of the spec. term maps a spec terminal to its
@@ -244,6 +247,11 @@ func c13Check(c c13Case, r *ev.Recorder) *Failure {
 		return nil
 	}
 	src := g.render("g", map[string]string{"eventBased": "true"}, true, "", nil)
+	if c.CC {
+		src = g.render("g", map[string]string{"namespace": `"g"`, "__termType": " {int}", "__ntType": " {int}"}, true, "", nil)
+		src = strings.Replace(src, "package = \"scratch/g\"\n", "", 1)
+		src = strings.Replace(src, "language g(go);", "language g(cc);", 1)
+	}
 	out, err := compiler.Compile(context.Background(), "g.tm", src, compiler.Params{CheckOnly: false})
 	r.Eval(1)
 	if out == nil || out.Parser == nil || len(out.Parser.Rules) == 0 {
